@@ -405,8 +405,8 @@ func genC07(t *rapid.T) C07Case {
 
 func TestC07(t *testing.T) {
 	RunProperty(t, Property[C07Case]{
-		ID: "C07",
-		Rule: "rapid-generated archive lists: a valid layout built by construction, then at most one mutation at a rule boundary (equal steps, non-dividing step, retention equal/one step shorter/longer, one point too few, zero/negative values, swapped order, empty list, retention products within +-2 of 2^31 and 2^32, offsets within +-3 slots of 2^32, year-scale layouts), method 0..9 and xFilesFactor bit patterns incl. NaN/+-Inf/-0/nextafter(0|1); each judged by the rules in exact int64 arithmetic and compared with NewHeader, Create (+Sync+reopen, header bytes vs. specification encoding), ParseArchiveInfoList on a harness-printed string, the -retentions/-agg-method/-x-files-factor flag values, Header.TakeFrom on specification-encoded bytes and Open on a file with those bytes. Non-trivial: the case carries a boundary mutation (not 'valid-plain'). Grey-zone lists (Z3) are discarded and counted. Distinct = hash of the case.",
+		ID:          "C07",
+		Rule:        "rapid-generated archive lists: a valid layout built by construction, then at most one mutation at a rule boundary (equal steps, non-dividing step, retention equal/one step shorter/longer, one point too few, zero/negative values, swapped order, empty list, retention products within +-2 of 2^31 and 2^32, offsets within +-3 slots of 2^32, year-scale layouts), method 0..9 and xFilesFactor bit patterns incl. NaN/+-Inf/-0/nextafter(0|1); each judged by the rules in exact int64 arithmetic and compared with NewHeader, Create (+Sync+reopen, header bytes vs. specification encoding), ParseArchiveInfoList on a harness-printed string, the -retentions/-agg-method/-x-files-factor flag values, Header.TakeFrom on specification-encoded bytes and Open on a file with those bytes. Non-trivial: the case carries a boundary mutation (not 'valid-plain'). Grey-zone lists (Z3) are discarded and counted. Distinct = hash of the case.",
 		Assumptions: []string{"Z3: retentions in [2^31,2^32) and files whose end (not an offset field) exceeds 2^32 get no verdict", "strings are printed in seconds by the harness (unit handling is C19's)"},
 		Gen:         genC07,
 		Run:         runC07,
